@@ -15,6 +15,7 @@ import (
 	"flag"
 	"fmt"
 	"os"
+	"strings"
 )
 
 func main() {
@@ -29,6 +30,16 @@ func main() {
 	if *out == "" {
 		fmt.Fprintln(os.Stderr, "need -out")
 		os.Exit(2)
+	}
+	if *replay != "" {
+		// a replay file carries its own mode: bind cases have a "kind"
+		if b, err := os.ReadFile(*replay); err == nil {
+			if strings.Contains(string(b), "\"kind\"") {
+				*mode = "bind"
+			} else {
+				*mode = "merkle"
+			}
+		}
 	}
 	switch *mode {
 	case "merkle":
